@@ -101,7 +101,8 @@ let rec scheme_of (f : string array) =
            let hname = function 1 -> "sha1" | 2 -> "sha384" | 3 -> "sha256" | 4 -> "sha512" | 5 -> "sha224" | _ -> failwith "hash enum" in
            let henum = match hash with "sha1" -> 1 | "sha384" -> 2 | "sha256" -> 3 | "sha512" -> 4 | "sha224" -> 5 | _ -> failwith "hash" in
            let hmacs = fun h k m -> ocall "hmac" [hname (int_of_n h)] [k; m] in
-           let denc = etm_dek_enc aes hmacs (nat_of_int ivs) and ddec = etm_dek_dec aes hmacs (nat_of_int ivs) in
+           (* nothing of the template but its type reaches Decrypt: the parsed key carries its own sizes *)
+           let denc = etm_dek_enc aes hmacs and ddec = etm_dek_dec aes hmacs in
            let dklen = al + hl in
            ((fun tape p ad ->
                let dk = take dklen tape in
